@@ -168,6 +168,7 @@ type e2eCluster struct {
 	sessN    int64
 	baseDist uint64
 	curClock int64
+	stalled  bool // a wait timed out once: the rest of the case runs with short waits
 	srvs     []*grpc.Server
 }
 
@@ -274,8 +275,15 @@ func (n *e2eNode) drain() {
 
 // sync: every publish handed to a worker has been distributed, every appended entry scheduled,
 // every writer queue drained. Returns "" or a description of what timed out.
+func (c *e2eCluster) wait() time.Duration {
+	if c.stalled {
+		return 150 * time.Millisecond
+	}
+	return 4 * time.Second
+}
+
 func (c *e2eCluster) sync(faultHit bool) string {
-	deadline := time.Now().Add(5 * time.Second)
+	deadline := time.Now().Add(c.wait())
 	for {
 		var started uint64
 		ok := true
@@ -295,6 +303,7 @@ func (c *e2eCluster) sync(faultHit bool) string {
 			break
 		}
 		if time.Now().After(deadline) {
+			c.stalled = true
 			return fmt.Sprintf("sync timeout: started=%d distributed=%d", started, done)
 		}
 		time.Sleep(200 * time.Microsecond)
@@ -303,9 +312,10 @@ func (c *e2eCluster) sync(faultHit bool) string {
 		n.bseq++
 		id := fmt.Sprintf("\x00barrier%d", n.bseq)
 		n.rawW.Send(c.ctx, []string{id}, []int32{0}, &packet.Publish{Header: &packet.Header{}, Topic: []byte("_/barrier")})
-		dl := time.Now().Add(5 * time.Second)
+		dl := time.Now().Add(c.wait())
 		for !n.local.saw(id) {
 			if time.Now().After(dl) {
+				c.stalled = true
 				return "writer queue not drained"
 			}
 			time.Sleep(100 * time.Microsecond)
